@@ -97,11 +97,40 @@ func (c *Ctx) cmpAddr(a, b string) int {
 		}
 		return -1
 	}
+	if c.distinctObjs(a, b) {
+		return -1
+	}
 	return 0
+}
+
+// distinctObjs: two object terms whose possible allocation tags are disjoint
+// denote different objects unless both are nil.
+func (c *Ctx) distinctObjs(a, b string) bool {
+	ta, tb := c.objTags[a], c.objTags[b]
+	if len(ta) == 0 || len(tb) == 0 || !(c.nonNil[a] || c.nonNil[b]) {
+		return false
+	}
+	for _, x := range ta {
+		for _, y := range tb {
+			if x == y {
+				return false
+			}
+		}
+	}
+	return true
 }
 
 // readHeap resolves (select (select h obj) idx) through store chains.
 func (c *Ctx) readHeap(h, obj, idx string) (string, bool) {
+	h0 := h
+	// the chain could not be followed to a value: the read is still the same read
+	// on the heap below the stores that were proved to touch other objects
+	partial := func() (string, bool) {
+		if h == h0 {
+			return "", false
+		}
+		return c.I("(select (select %s %s) %s)", h, obj, idx), true
+	}
 	for depth := 0; depth < 200; depth++ {
 		d := c.expand(h)
 		op, args := splitArgs(d)
@@ -112,21 +141,24 @@ func (c *Ctx) readHeap(h, obj, idx string) (string, bool) {
 			if ok1 && ok2 {
 				return c.ite("Int", args[0], a, b), true
 			}
-			return "", false
+			return partial()
 		}
 		if op != "store" || len(args) != 3 {
-			return "", false
+			return partial()
 		}
 		switch c.cmpAddr(args[1], obj) {
 		case 1:
-			return c.readRow(args[2], obj, idx, depth)
+			if v, ok := c.readRow(args[2], obj, idx, depth); ok {
+				return v, true
+			}
+			return partial()
 		case -1:
 			h = args[0]
 		default:
-			return "", false
+			return partial()
 		}
 	}
-	return "", false
+	return partial()
 }
 
 func (c *Ctx) readRow(row, obj, idx string, depth int) (string, bool) {
